@@ -73,6 +73,9 @@ func normSeq(fn *ssa.Function) []string {
 						switch x.Op {
 						case token.EQL, token.NEQ, token.LSS, token.LEQ, token.GTR, token.GEQ:
 							set["compare "+x.Op.String()+" "+k.String()] = true
+						case token.ADD, token.SUB, token.MUL, token.SHL, token.SHR, token.AND, token.OR:
+							// layout arithmetic with a constant (buffer sizes, offsets): the constants are part of the agreement
+							set["arith "+x.Op.String()+" "+k.String()] = true
 						}
 					}
 				case *ssa.FieldAddr:
